@@ -51,7 +51,7 @@ ISA_BRANCH = {
 
 
 def fn(F, name):
-    c = [f for f in F.all_funcs() if f.get('body') and f['file'].endswith(UNIT) and f['q'].split('::')[-1] == name]
+    c = [f for f in F.in_file(UNIT) if f['q'].split('::')[-1] == name]
     if len(c) != 1:
         raise AnalysisBroken('rv64: expected one definition of %s in %s, found %d' % (name, UNIT, len(c)))
     return c[0]
@@ -177,7 +177,7 @@ def rule_branch_forms(ctx, R):
             ops += [o for o, _ in emitted_ops(node)]
             if any(c.get('name') == 'emitJump' for c in calls(node)):
                 ops.append('JAL')
-        br = [o for o in ops if o in ISA_BRANCH]
+        br = [o for o in ops if o in ISA_BRANCH or o in ('BNE', 'C_J')]
         # lower bounds on offset known on this path
         lo = None
         for c, taken in p.conds:
@@ -188,7 +188,7 @@ def rule_branch_forms(ctx, R):
         if not br:
             continue
         forms += 1
-        form = br[0] if br[0] != 'C_BNEZ' else 'JAL'
+        form = 'JAL' if 'JAL' in ops else br[0]
         bits = ISA_BRANCH[form]['bits']
         if form == 'JAL':
             size = F.const('randomx::RandomXCodeSize')
@@ -216,9 +216,20 @@ def rule_branch_forms(ctx, R):
                         ev.env[dd['id']] = ev.ev(dd['init']).resize(w, (domains.type_info(dd['init'].get('ty')) or (0, False))[1])
         return ev.ev(emit_arg)
 
+    # emits that belong to the far arm (the path that calls emitJump) are checked separately below
+    far_ids = set()
+    for p in decoder.paths(f['body']):
+        evs_ = [e for e in p.events if not isinstance(e, tuple)]
+        if any(c.get('name') == 'emitJump' for e in evs_ for c in calls(e)):
+            others = [q_ for q_ in decoder.paths(f['body']) if q_ is not p]
+            other_nodes = set(id(e) for q_ in decoder.paths(f['body']) if not any(c.get('name') == 'emitJump' for e in q_.events if not isinstance(e, tuple) for c in calls(e)) for e in q_.events if not isinstance(e, tuple))
+            for e in evs_:
+                if id(e) not in other_nodes:
+                    for c in calls(e):
+                        far_ids.add(id(c))
     for form in ('C_BEQZ', 'BEQ'):
         isa = ISA_BRANCH[form]
-        em = [c for o, c in emitted_ops(f['body']) if o == form]
+        em = [c for o, c in emitted_ops(f['body']) if o == form and id(c) not in far_ids]
         if len(em) != 1:
             raise AnalysisBroken('rv64 h_CBRANCH: expected one %s emit, found %d' % (form, len(em)))
         arg = em[0]['a'][-1]
@@ -242,21 +253,43 @@ def rule_branch_forms(ctx, R):
             rs1 = ((v >> 7) & 7) + 8 if form == 'C_BEQZ' else (v >> 15) & 31
             rs2 = 0 if form == 'C_BEQZ' else (v >> 20) & 31
             R.check(rs1 == F.const('randomx::Tmp1Reg') and rs2 == 0, 'rv64 %s tests the masked value against zero' % form, loc(em[0], f), expected='rs1 = x%d, rs2 = x0' % F.const('randomx::Tmp1Reg'), found='rs1 = x%d rs2 = x%d' % (rs1, rs2))
-    # c.bnez +6
-    em = [c for o, c in emitted_ops(f['body']) if o == 'C_BNEZ']
-    if len(em) == 1:
-        w = KBEval(F, {}).ev(em[0]['a'][-1]).value()
-        isa = ISA_BRANCH['C_BNEZ']
-        o = None
-        if w is not None:
-            o = 0
-            for k, p_ in isa['pos'].items():
-                o |= ((w >> p_) & 1) << k
-            o = sx(o, 9)
-        adv = [val(x['r']) for x in walk(f['body']) if x['k'] == 'CAssign' and x['op'] == '+=' and 'codePos' in show(x['l'])]
-        R.check(w is not None and (w & isa['opmask']) == isa['op'] and o == 6 and adv == [4], 'rv64 c.bnez skips the jal', loc(em[0], f), expected='c.bnez x8, +6; codePos += 4 for the jal', found='offset %s, codePos += %s' % (o, adv))
-    else:
-        raise AnalysisBroken('rv64 h_CBRANCH: expected one C_BNEZ emit')
+    # far form: the instruction emitted right before emitJump must skip the jal exactly when the masked value is NOT zero
+    far = None
+    for p in decoder.paths(f['body']):
+        evs = [e for e in p.events if not isinstance(e, tuple)]
+        idx = [i for i, e in enumerate(evs) if any(c.get('name') == 'emitJump' for c in calls(e))]
+        if idx:
+            far = (evs, idx[0])
+    if far is None:
+        raise AnalysisBroken('rv64 h_CBRANCH: no path calls emitJump')
+    evs, ji = far
+    skips = []
+    for e in evs[:ji]:
+        for c in calls(e):
+            if c.get('name') == 'emit' and c.get('a'):
+                w = KBEval(F, {}).ev(c['a'][-1])
+                v = w.value()
+                if v is None:
+                    continue
+                if w.w == 16 and (v & 0xc003) == 0xc001:       # c.beqz / c.bnez
+                    isa = ISA_BRANCH['C_BNEZ']
+                    o = 0
+                    for k_, p_ in isa['pos'].items():
+                        o |= ((v >> p_) & 1) << k_
+                    skips.append(dict(kind='nez' if (v >> 13) & 1 else 'eqz', rs1=((v >> 7) & 7) + 8, rs2=0, off=sx(o, 9), size=2, call=c))
+                elif w.w == 32 and (v & 0x7f) == 0x63:
+                    isa = ISA_BRANCH['BEQ']
+                    o = 0
+                    for k_, p_ in isa['pos'].items():
+                        o |= ((v >> p_) & 1) << k_
+                    f3 = (v >> 12) & 7
+                    skips.append(dict(kind={0: 'eqz', 1: 'nez'}.get(f3, 'funct3=%d' % f3), rs1=(v >> 15) & 31, rs2=(v >> 20) & 31, off=sx(o, 13), size=4, call=c))
+    adv = [val(x['r']) for x in walk(f['body']) if x['k'] == 'CAssign' and x['op'] == '+=' and 'codePos' in show(x['l'])]
+    tmp1 = F.const('randomx::Tmp1Reg')
+    ok = len(skips) == 1 and skips[0]['kind'] == 'nez' and skips[0]['rs1'] == tmp1 and skips[0]['rs2'] == 0 and skips[0]['off'] == skips[0]['size'] + 4 and adv == [4]
+    R.check(ok, 'rv64 far form: branch-if-not-zero over the jal', loc(skips[0]['call'], f) if skips else '%s:%d' % (f['file'], f['line']),
+            expected='one branch taken when x%d != 0 that skips itself + the 4-byte jal; codePos += 4 for the jal' % tmp1,
+            found=[dict(kind=s_['kind'], rs1=s_['rs1'], rs2=s_['rs2'], offset=s_['off'], size=s_['size']) for s_ in skips] + ['codePos += %s' % adv])
     # jal scatter in emitJump
     ej = fn(F, 'emitJump')
     pid = {p['name']: p['id'] for p in ej['params']}
